@@ -99,9 +99,11 @@ def observe_one(erg, env, path, want_script=False):
         return dict(out, status="skipped-bytecode-crash", detail=bl)
     if (p[0], ADDR.sub("0x", p[1])) == (b[0], ADDR.sub("0x", b[1])):
         return dict(out, status="same", rc=p[0], printed=len(p[1]))
-    b2 = _run([PY311, pyc], d, env)
-    if (b2[0], ADDR.sub("0x", b2[1])) != (b[0], ADDR.sub("0x", b[1])):
-        return dict(out, status="skipped-nondeterministic")
+    for _ in range(2):          # a program that does not repeat its own output (random, time, addresses) is not comparable
+        b2 = _run([PY311, pyc], d, env)
+        p2 = _run([PY311, py], d, env)
+        if (b2[0], ADDR.sub("0x", b2[1])) != (b[0], ADDR.sub("0x", b[1])) or (p2[0], ADDR.sub("0x", p2[1])) != (p[0], ADDR.sub("0x", p[1])):
+            return dict(out, status="skipped-nondeterministic")
     sig = "rc %s vs %s: %s" % (p[0], b[0], last_line(p[2]) or "stdout differs")
     return dict(out, status="diff", sig=sig, py=dict(rc=p[0], stdout=p[1][-1500:], stderr=p[2][-800:]),
                 bytecode=dict(rc=b[0], stdout=b[1][-1500:], stderr=b[2][-800:]))
@@ -322,9 +324,10 @@ def corpus_files(root):
 
 
 def known_match(known, rel, sig):
+    """corpus program: listed file + failure signature; generated program (rel None): failure signature of a listed class"""
     for k in known:
         w = k.get("witness", {})
-        if rel in w.get("corpus", []) and re.search(k.get("signature", "$^"), sig):
+        if "signature" in k and (rel is None or rel in w.get("corpus", [])) and re.search(k["signature"], sig):
             return k
     return None
 
@@ -348,7 +351,8 @@ def run(ctx):
     proof = ctx.coq(["Emit/Props_C17.v"])
     erg = ctx.erg_bin()
     model = ctx.model("Emit")
-    root = tempfile.mkdtemp(prefix="c17-", dir=CACHE)
+    # a path without dots and dashes: erg derives Python module names of local imports from the path
+    root = tempfile.mkdtemp(prefix="c17w", dir="/tmp")
     try:
         _run_all(ctx, G, proof, erg, model, root)
     finally:
@@ -386,7 +390,7 @@ def _run_all(ctx, G, proof, erg, model, root):
     gen = []      # (kind, prog object, path)
     gd = os.path.join(root, "gen")
     os.makedirs(gd)
-    n_s, n_c = ctx.scale(30, 1200), ctx.scale(30, 1200)
+    n_s, n_c = ctx.scale(20, 1200), ctx.scale(24, 1200)
     for i in range(n_s):
         p = SG.probe_program(ctx.rng) if i % 10 == 0 else SG.gen_program(ctx.rng)
         gen.append(("strings", p, SG.to_erg(p)))
@@ -419,7 +423,12 @@ def _run_all(ctx, G, proof, erg, model, root):
         ctx.case(["prog", src], nontrivial=o["status"] == "same" and o.get("printed", 0) > 0,
                  sample={"program": src[:400], "status": o["status"]})
         if o["status"] in ("diff", "invalid-python"):
-            fails.append((k, p, src, o))
+            kf = known_match(known, None, o["sig"]) if o["status"] == "diff" else None
+            if kf:
+                ctx.known_finding(kf)
+                ctx.count("%s:in a known class (%s)" % (k, kf["id"]))
+            else:
+                fails.append((k, p, src, o))
     corpus_root = os.path.join(root, "corpus") + os.sep
     corpus_fail = []
     for f, o in zip(cfiles, obs[len(paths):]):
@@ -473,10 +482,10 @@ def _run_all(ctx, G, proof, erg, model, root):
                       impl={"python": lf.get("python"), "python_value": lf.get("python_value")}, judge="CPython tokenizer + ast.literal_eval")
     for k, p, src, o in fails[:max(0, 3 - len(lit_fails[:2]))]:
         if k == "strings":
-            small = shrink_list(p, lambda sub: still_fails(SG.to_erg(sub), o["status"])[0], budget=40)
+            small = shrink_list(p, lambda sub: still_fails(SG.to_erg(sub), o["status"])[0], budget=25)
             ssrc = SG.to_erg(small)
         else:
-            small = G.shrink(p, lambda sub: still_fails(G.to_erg(sub), o["status"])[0], budget=40)
+            small = G.shrink(p, lambda sub: still_fails(G.to_erg(sub), o["status"])[0], budget=25)
             ssrc = G.to_erg(small)
         ok, o2 = still_fails(ssrc, o["status"])
         o2 = o2 if ok else o
